@@ -32,7 +32,7 @@ ASSUMPTIONS = [
     "float printing (repr, str(float), ':g') is an oracle: written numeric tokens are compared by parsed value (rel. 1e-9); "
     "metadata floats are generated with <= 6 significant digits (':g' is lossy beyond that: outside the claimed domain)",
     "binary64 rounding inside float()/60000.0/x/-100.0/x is not modelled: exact stream uses float-exact numerals (tolerance 0), "
-    "rounded stream tolerance 1e-9 relative; the binary64 value of 512/keys IS modelled (it decides columns)",
+    "rounded stream tolerance 1e-9 relative; x_axis_to_column is pure integer arithmetic (x * keys // 512) and is modelled exactly",
     "unidecode(Title/Artist) is an external oracle: its output is passed into the case and tested to be ASCII and a fixed point",
     "text attributes are generated without surrounding blanks, tags without blanks, note/sample file names without ',' or ':'",
     "Python int()/float() also accept '_' separators, non-ASCII digits, inf/nan: outside the dialect, never generated",
@@ -624,45 +624,9 @@ def bucket(case, out):
     return k
 
 
-def _value_colon_lines(lines):
-    keys = {a[1] for a in ATTRS}
-    res = []
-    for l in lines:
-        l = l.strip()
-        if ":" in l:
-            k, v = l.split(":", 1)
-            if k in keys and ":" in v:
-                res.append((k, v))
-    return res
-
-
 def classify(case, out, kind):
-    """stable keys of the defects of the pinned tree (findings/C01.json); None for anything else"""
-    if kind not in ("spec", "corr"):
-        return None
-    if case["kind"] == "read" and out.get("v") is not None:
-        bad = _value_colon_lines(case["lines"])
-        if bad:
-            by_key = {a[1]: a for a in ATTRS}
-            ok = True
-            for k, v in bad:
-                a = by_key[k]
-                got = out["v"]["meta"][a[0]]
-                if a[2] == "s" and not (got == v.split(":")[0].strip() and got != v.strip()):
-                    ok = False
-            if ok:
-                return "meta-value-second-colon"
-        if case.get("keys") == 10:
-            for l in case["lines"]:
-                l = l.strip()
-                if l.count(",") == 5 and l.split(",")[0] == "256":
-                    return "xcol-float-boundary"
-    if case["kind"] == "rw":
-        if _value_colon_lines(case["lines"]):
-            return "meta-value-second-colon"
-    if case["kind"] == "gen":
-        if _value_colon_lines(out.get("w1", [])):
-            return "meta-value-second-colon"
+    """no defect of the tree is currently known for C01 (findings/C01.json: both entries are 'fixed');
+    every violation is reported"""
     return None
 
 
